@@ -1,5 +1,9 @@
 import Proofs.ExprLitLemmas
-import Liquid.Render
+import Proofs.PipeAssignLemmas
+import Proofs.C12
+import Proofs.C07
+import Proofs.FilterSigs
+import Liquid.Std
 /-!
 # C08 — expressions from their source text: literals, whitespace between the parts
 
@@ -13,7 +17,7 @@ expression (`parseExprSource`, the model of `expressions.Parse`; `parseStatement
   may touch (`fits`), and the places where a space does matter recorded as counterexamples.
 
 Helper lemmas: `Proofs/ExprLexLemmas.lean` (the scanner one step at a time), `Proofs/ExprLexemes.lean`
-(the grammar `Lexeme` of lexemes, `fits`, `step_lexeme`), `Proofs/ExprSpacing.lean` (pieces),
+(the grammar `Lexeme` of lexemes, `fits`, `lexStep_lexeme`), `Proofs/ExprSpacing.lean` (pieces),
 `Proofs/ExprLitLemmas.lean` (values of literal lexemes).
 -/
 
@@ -215,7 +219,7 @@ starts with whitespace or any other break byte (`fits_break`), so a non-empty se
 /-- **C08 (whitespace, tokens).** On well-spaced pieces the scanner returns the tokens of the lexemes
     followed by the closing `;` — the separators, the trailing whitespace `w` included, do not appear. -/
 theorem well_spaced_tokens (ps : List Piece) (w : Bytes) (h : WellSpaced (ps ++ [semiPiece w])) :
-    lex (Piece.src ps ++ w) = tokensOf (ps.map Piece.lexeme ++ [(.rAny, [59])]) := by
+    lex (Piece.src ps ++ w) = lexemeToks (ps.map Piece.lexeme ++ [(.rAny, [59])]) := by
   rw [lex_eq_lexRun]
   have : Piece.src ps ++ w ++ [59] = Piece.src (ps ++ [semiPiece w]) := by
     rw [src_append]; simp [Piece.src, semiPiece]
@@ -386,3 +390,199 @@ example : fits .rInt [49] [46, 46, 53, 41] = true ∧ fits .rInt [49] [46, 53] =
     parseExprSource [40, 49, 32, 46, 46, 32, 53, 41] = .ok (.range (.lit (.int .int 1)) (.lit (.int .int 5))) :=
   ⟨rfl, rfl, rfl, rfl⟩
 end Examples
+
+/-! ## G3. A pipeline is its steps, one at a time through `assign` — at render level
+
+`withEnv env p` is the program `p` with the variables of its final state replaced by `env`; an object
+node never changes the variables, so `withEnv (s.env.set t v) (… s)` reads: the same writes, the same
+failure or status, the same trim-writer state, and finally the variables of `s` with `t` bound to `v`. -/
+
+/-- **C08 (split a pipeline at any point).** `{% assign t = E %}{{ t | g₁: b₁ | … | gₙ: bₙ }}` does exactly
+    what `{{ E | g₁: b₁ | … | gₙ: bₙ }}` does — the same writer calls, the same error if a later step fails,
+    also in strict-variables mode — and leaves `t` bound to the value of `E`, provided `t` does not occur
+    in the arguments `bᵢ` and `E` evaluates without error. (`E` is any expression, e.g. `x | f: a`.) What
+    `assign` stores (`Evaluate`: the wrapper's `Interface()`) and what the variable reference hands to the
+    next filter (`ToLiquid`, then `Interface()`) is the same value for every value: `unwrap_toLiquid_unwrap`. -/
+theorem pipeline_split_assign (c : RCtx) (line line' : Nat) (t : Bytes) (e1 : Expr) (rest : List (Bytes × List Expr))
+    (s : RS) (v1 : GoVal) (hfresh : FreshFor t rest) (h1 : evaluate c.P s.env e1 = .ok v1) :
+    renderList c [.assign line t e1, .obj line' (pipeline (.var t) rest)] s =
+      withEnv (s.env.set t v1) (renderList c [.obj line' (pipeline e1 rest)] s) := by
+  rw [assign_seq c line t e1 _ s v1 h1]
+  obtain ⟨env, tw⟩ := s
+  refine renderList_obj_env c line' _ _ env (env.set t v1) tw ?_
+  refine evaluate_pipeline_congr c.P env t v1 rest hfresh _ _ ?_
+  have hv := evaluate_unwrapped c.P env e1 v1 h1
+  rw [hv, evaluate_var_set, ← hv]
+  exact h1.symm
+
+/-- the steps `{% assign t = x %}{% assign t = t | f₁: a₁ %}…{% assign t = t | fₙ: aₙ %}` -/
+def stepwise (line : Nat) (t : Bytes) (x : Expr) (fs : List (Bytes × List Expr)) : List Node :=
+  .assign line t x :: fs.map fun fa => .assign line t (.filter (.var t) fa.1 fa.2)
+
+/-- **C08 (pipeline = steps through assign).** `{{ x | f₁: a₁ | … | fₙ: aₙ }}` and the same steps done one at
+    a time, `{% assign t = x %}{% assign t = t | f₁: a₁ %}…{% assign t = t | fₙ: aₙ %}{{ t }}`, make the same
+    writer calls and end in the same state up to `t`, which holds the value of the pipeline — for a fresh
+    `t` (not occurring in the arguments), whenever the pipeline evaluates without error. By induction on
+    the number of steps. -/
+theorem pipeline_stepwise (c : RCtx) (line line' : Nat) (t : Bytes) (fs : List (Bytes × List Expr)) :
+    ∀ (x : Expr) (s : RS) (v : GoVal), FreshFor t fs → evaluate c.P s.env (pipeline x fs) = .ok v →
+    renderList c (stepwise line t x fs ++ [.obj line' (.var t)]) s =
+      withEnv (s.env.set t v) (renderList c [.obj line' (pipeline x fs)] s) := by
+  induction fs with
+  | nil =>
+    intro x s v hfresh hv
+    exact pipeline_split_assign c line line' t x [] s v hfresh hv
+  | cons fa rest ih =>
+    intro x s v hfresh hv
+    obtain ⟨f, a⟩ := fa
+    obtain ⟨v0, hx⟩ := evaluate_pipeline_ok_head c.P s.env _ x v hv
+    have hrest : FreshFor t rest := fun fa hfa => hfresh fa (List.mem_cons_of_mem _ hfa)
+    have ha : mentionsList t a = false := hfresh (f, a) (List.mem_cons_self ..)
+    simp only [stepwise, List.map_cons, List.cons_append]
+    rw [assign_seq c line t x _ s v0 hx]
+    obtain ⟨env, tw⟩ := s
+    have hstep := evaluate_step_var c.P env t x v0 f a hx ha
+    have hv' : evaluate c.P (env.set t v0) (pipeline (.filter (.var t) f a) rest) = .ok v := by
+      rw [evaluate_pipeline_congr c.P env t v0 rest hrest _ _ hstep]; exact hv
+    have := ih (.filter (.var t) f a) ⟨env.set t v0, tw⟩ v hrest hv'
+    simp only [stepwise, List.cons_append] at this
+    simp only [] at this ⊢
+    rw [this, Env.set_set]
+    rw [renderList_obj_env c line' (pipeline (.filter x f a) rest) _ env (env.set t v0) tw
+      (evaluate_pipeline_congr c.P env t v0 rest hrest _ _ hstep), withEnv_withEnv]
+    rfl
+
+/-- **C08 (when the first part fails, both fail).** If `E` fails with `cause`, the `assign` fails with that
+    cause at its own line, and the single object fails at its line: with the same cause, or — a filter
+    being looked up before its receiver is evaluated — with the undefined-filter error of the outermost
+    unknown filter among the later steps (`pipeErr`). -/
+theorem pipeline_split_assign_fails (c : RCtx) (line line' : Nat) (t : Bytes) (e1 : Expr)
+    (rest : List (Bytes × List Expr)) (s : RS) (cause : Cause) (h1 : evaluate c.P s.env e1 = .err cause) :
+    renderList c [.assign line t e1, .obj line' (pipeline (.var t) rest)] s =
+      .fail (.located ⟨line, true, cause, .byCause⟩) ∧
+    renderList c [.obj line' (pipeline e1 rest)] s =
+      .fail (.located ⟨line', true, pipeErr c.P cause rest, .byCause⟩) := by
+  constructor
+  · rw [assign_err c line t e1 _ s cause h1]; rfl
+  · rw [renderList_single, Prog.bind_ret,
+      obj_error_located c line' _ s _ (evaluate_pipeline_err c.P s.env rest e1 cause h1)]
+
+/-! Non-vacuity of G3: `{% assign t = "a" | append: "b" %}{{ t | upcase }}` against `{{ "a" | append: "b" | upcase }}`
+    with the standard filters -/
+example (c : RCtx) (hP : c.P = stdPrims) (s : RS) :
+    renderList c [.assign 1 [116] (.filter (.lit (.str [97])) [97, 112, 112, 101, 110, 100] [.lit (.str [98])]),
+                  .obj 2 (.filter (.var [116]) [117, 112, 99, 97, 115, 101] [])] s =
+    withEnv (s.env.set [116] (.str [97, 98]))
+      (renderList c [.obj 2 (.filter (.filter (.lit (.str [97])) [97, 112, 112, 101, 110, 100] [.lit (.str [98])])
+        [117, 112, 99, 97, 115, 101] [])] s) :=
+  pipeline_split_assign c 1 2 [116] _ [([117, 112, 99, 97, 115, 101], [])] s _
+    (by intro fa hfa; simp only [List.mem_cons, List.mem_nil_iff, or_false] at hfa; subst hfa; rfl)
+    (by rw [hP]; with_unfolding_all rfl)
+
+example : evaluate stdPrims [] (pipeline (.lit (.str [97])) [([97, 112, 112, 101, 110, 100], [.lit (.str [98])]),
+    ([117, 112, 99, 97, 115, 101], [])]) = .ok (.str [65, 66]) := by with_unfolding_all rfl
+
+/-- the order of the checks is visible when the first part fails: `{{ 1 | nope | alsonope }}` reports `alsonope` -/
+example : pipeErr stdPrims (.undefinedFilter [110]) [([109], [])] = .undefinedFilter [109] := by with_unfolding_all rfl
+
+/-! ## G4. More arguments than the filter takes is an error; missing arguments are defaulted -/
+
+/-- **C08 (too many arguments).** A filter whose Go function has `k` parameters after the receiver
+    (`lookupSig`, the registry extracted from `AddStandardFilters`) applied to more than `k` arguments is the
+    parity error wrapped in a `FilterError` — before any argument is converted, whatever the values and
+    whatever the filter body is. -/
+theorem too_many_arguments_err (impls : Bytes → Option FilterImpl) (name : Bytes) (sg : FilterSig)
+    (recv : GoVal) (args : List GoVal) (hs : lookupSig name = some sg) (h : sg.params.length < args.length + 1) :
+    applyFilter impls name recv args = .err (.filterErr name .parity) := by
+  unfold applyFilter
+  simp only [hs, List.length_cons]
+  rw [if_pos (by omega)]
+
+/-- the same at the level of the expression `e | name: a₁, …, aₙ` with the standard filters: receiver and
+    argument expressions are evaluated first (their errors come first), then the call fails -/
+theorem filter_too_many_arguments (env : Env) (e : Expr) (name : Bytes) (args : List Expr) (sg : FilterSig)
+    (recv : GoVal) (as : List GoVal) (hs : lookupSig name = some sg) (h : sg.params.length < args.length + 1)
+    (he : eval stdPrims env e = .ok recv) (ha : evalList stdPrims env args = .ok as) :
+    eval stdPrims env (.filter e name args) = .err (.filterErr name .parity) := by
+  have hhas : stdPrims.hasFilter name = true := by simp [stdPrims, hs]
+  rw [eval_filter_step stdPrims env e name args hhas, he, ha]
+  have hl := evalList_length stdPrims env args as ha
+  exact too_many_arguments_err _ name sg _ _ hs (by simp only [List.length_map]; omega)
+
+/-- every registered filter has a signature with the receiver as first parameter, and is looked up by its name -/
+theorem registered_filter_sig : ∀ sg ∈ stdFilters, lookupSig sg.name = some sg ∧ 1 ≤ sg.params.length := by
+  decide +kernel
+
+/-- **C08 (fewer arguments).** Parameters without an argument receive the zero value of their type
+    (`""`, `0`, `nil`, an empty array) or, for a default-function parameter, the identity function
+    (`defaultArg`); the arguments that are present are converted as usual. -/
+theorem missing_arguments_default (impls : Bytes → Option FilterImpl) (name : Bytes) (ps qs : List Param) (hasErr : Bool)
+    (recv : GoVal) (args : List GoVal) (hs : lookupSig name = some ⟨name, ps ++ qs, hasErr⟩)
+    (hlen : args.length + 1 = ps.length) :
+    applyFilter impls name recv args =
+      (convertArgs ps (recv :: args)).bind fun cargs =>
+        match impls name with
+        | none => .unmodelled "filter body not modelled"
+        | some f => (f (cargs ++ qs.map defaultArg)).bind fun
+            | .error c => .err (.filterErr name c)
+            | .ok v => .ok (bytesToString v) := by
+  unfold applyFilter
+  simp only [hs, List.length_cons, List.length_append]
+  rw [if_neg (by omega), convertArgs_append ps qs (recv :: args) (by simpa using hlen)]
+  cases convertArgs ps (recv :: args) <;> rfl
+
+/-! Non-vacuity of G4 -/
+/-- `"a" | append: "b", "c"`: `append` takes one argument -/
+example : eval stdPrims [] (.filter (.lit (.str [97])) [97, 112, 112, 101, 110, 100] [.lit (.str [98]), .lit (.str [99])])
+    = .err (.filterErr [97, 112, 112, 101, 110, 100] .parity) :=
+  filter_too_many_arguments [] _ _ _ ⟨[97, 112, 112, 101, 110, 100], [.val .str, .val .str], false⟩ (.str [97])
+    [.str [98], .str [99]] (by rw [lookupSig_is_source]; decide +kernel) (by decide) (by rw [eval]) (by simp [evalList, eval])
+/-- `"a" | append`: the missing argument is the empty string; `"abcdef" | truncate`: the defaults 50 and `...` -/
+example : evaluate stdPrims [] (.filter (.lit (.str [97])) [97, 112, 112, 101, 110, 100] []) = .ok (.str [97]) := by
+  with_unfolding_all rfl
+example : evaluate stdPrims [] (.filter (.lit (.str [97, 98, 99, 100, 101, 102])) [116, 114, 117, 110, 99, 97, 116, 101] [])
+    = .ok (.str [97, 98, 99, 100, 101, 102]) := by with_unfolding_all rfl
+
+/-! ## G5. Strict variables look at the final value only -/
+
+/-- **C08 (nil prints nothing).** Without strict variables an object whose value is nil writes nothing and
+    changes nothing — for the standard output function, and for any that writes no chunk for nil. -/
+theorem obj_nil_prints_nothing (c : RCtx) (line : Nat) (e : Expr) (s : RS)
+    (h : evaluate c.P s.env e = .ok .nil) (hs : c.cfg.strict = false) (ho : c.O.chunks .nil = .ok []) :
+    renderNode c (.obj line e) s = .ret (.done, s) := by
+  unfold renderNode
+  simp [wrapFailAt, M.mapFail, bind, M.bind, M.getEnv, M.ofRes, h, pure, M.pure, Prog.bind, GoVal.isNil, hs, ho,
+    writeAllM, Prog.mapFail]
+
+theorem stdOut_nil : stdOut.chunks .nil = .ok [] := rfl
+
+/-- **C08 (strict variables: only the final value).** In strict-variables mode an object fails with the
+    undefined-variable error exactly when its FINAL value is nil (`strict_undefined`, Proofs/C07.lean); when
+    the final value is not nil the mode changes nothing — a nil in the middle of a pipeline
+    (`{{ nope | default: 1 }}`) is not an error. -/
+theorem strict_only_final_value (c : RCtx) (line : Nat) (e : Expr) (s : RS) (v : GoVal)
+    (h : evaluate c.P s.env e = .ok v) (hv : v.isNil = false) :
+    renderNode c (.obj line e) s =
+      renderNode { c with cfg := { c.cfg with strict := false } } (.obj line e) s := by
+  unfold renderNode
+  simp only [wrapFailAt, M.mapFail, bind, M.bind, M.getEnv, M.ofRes, h, pure, M.pure, Prog.bind, hv, Bool.false_and,
+    Bool.false_eq_true, if_false]
+
+/-- an evaluation error is reported in either mode, and a nil final value only in strict mode -/
+theorem strict_final_nil_fails (c : RCtx) (line : Nat) (e : Expr) (s : RS) (h : evaluate c.P s.env e = .ok .nil) :
+    (c.cfg.strict = true → renderNode c (.obj line e) s = .fail (.located ⟨line, true, .other "undefinedVariable", .byCause⟩)) ∧
+    (c.cfg.strict = false → c.O.chunks .nil = .ok [] → renderNode c (.obj line e) s = .ret (.done, s)) :=
+  ⟨fun hs => strict_undefined c line e s h hs, fun hs ho => obj_nil_prints_nothing c line e s h hs ho⟩
+
+/-! Non-vacuity of G5: with no bindings, `{{ nope }}` is nil, `{{ nope | default: 1 }}` is 1 -/
+example : evaluate stdPrims [] (.var [110, 111, 112, 101]) = .ok .nil := rfl
+example : evaluate stdPrims [] (.filter (.var [110, 111, 112, 101]) [100, 101, 102, 97, 117, 108, 116] [.lit (.int .int 1)])
+    = .ok (.int .int 1) := by with_unfolding_all rfl
+/-- … so in strict mode the first object fails and the second renders as without it -/
+example (c : RCtx) (hP : c.P = stdPrims) (hs : c.cfg.strict = true) (s : RS) (h : s.env = []) :
+    renderNode c (.obj 1 (.var [110, 111, 112, 101])) s = .fail (.located ⟨1, true, .other "undefinedVariable", .byCause⟩) ∧
+    renderNode c (.obj 1 (.filter (.var [110, 111, 112, 101]) [100, 101, 102, 97, 117, 108, 116] [.lit (.int .int 1)])) s =
+      renderNode { c with cfg := { c.cfg with strict := false } }
+        (.obj 1 (.filter (.var [110, 111, 112, 101]) [100, 101, 102, 97, 117, 108, 116] [.lit (.int .int 1)])) s :=
+  ⟨strict_undefined c 1 _ s (by rw [hP, h]; rfl) hs,
+   strict_only_final_value c 1 _ s (.int .int 1) (by rw [hP, h]; with_unfolding_all rfl) rfl⟩
